@@ -18,7 +18,7 @@ ASSUMPTIONS = [
 ]
 
 FAMILIES = ["f_chain", "f_subplan", "f_glob", "f_amend", "f_env", "f_vol", "f_redefine",
-            "f_optional", "f_hold", "f_dynout", "f_nested", "f_cutoff", "f_planuse"]
+            "f_optional", "f_hold", "f_dynout", "f_nested", "f_cutoff", "f_planuse", "f_failwrite"]
 CFG = {"njob": 2}
 # families whose default-schedule result the real tool need not reproduce (none at the moment)
 SCHEDULE_DEPENDENT_FAMILIES = ()
